@@ -294,8 +294,17 @@ fn execute(prog: Program) -> Outcome {
             } else {
                 "back-to-back"
             };
+            // witness class: which kinds of operations touched the diverged key and where. Writes that
+            // replace the value (set-like) are told apart from the ones that commute (increment).
+            let set_like = |v: &Vec<String>| v.iter().any(|k| matches!(k.as_str(), "set" | "set-safe" | "create-user" | "set-permissions" | "create-db"));
             let shape = if sec.is_empty() {
-                format!("primary-origin-only:{}:{}", mode, pri.join("+"))
+                if mode == "two-clients" && (set_like(&pri) || pri.iter().any(|k| k == "remove")) {
+                    format!("primary-origin-only:two-clients:non-commuting:{}", pri.join("+"))
+                } else {
+                    format!("primary-origin-only:{}:{}", mode, pri.join("+"))
+                }
+            } else if set_like(&sec) {
+                format!("secondary-origin:writes-incl-set:{}:{}", mode, sec.join("+"))
             } else {
                 format!("secondary-origin:{}:{}", mode, sec.join("+"))
             };
